@@ -9,12 +9,14 @@ import (
 	"log/slog"
 	"net"
 	"net/netip"
+	"sync/atomic"
 	"time"
 
 	"github.com/scionproto/scion/pkg/snet"
 	spath "github.com/scionproto/scion/pkg/snet/path"
 
 	"example.com/scion-time/core/client"
+	"example.com/scion-time/net/ntp"
 	"example.com/scion-time/net/udp"
 
 	"verifharness/lib"
@@ -209,5 +211,97 @@ func runBadLocal(w *worker) {
 		outMu.Lock()
 		out.Case("client.badlocal", "nt", lib.I(int64(scion)), lib.V(lib.Bool(err != nil), lib.I(int64(nreq))))
 		outMu.Unlock()
+	}
+}
+
+// countFilter counts the measurements a client evaluated
+type countFilter struct{ n atomic.Int64 }
+
+func (f *countFilter) Do(t0, t1, t2, t3 time.Time) time.Duration {
+	f.n.Add(1)
+	return ntp.ClockOffset(t0, t1, t2, t3)
+}
+func (f *countFilter) Reset() {}
+
+// runCtxDone: calls whose context is already cancelled (variant 0), whose deadline lies in the
+// past (1), or whose deadline passes between the tries of an interleaved-mode call (3: the first
+// try is answered, the answer to the second is held back beyond the deadline).  A call must
+// not report a measurement unless a datagram was accepted.
+func runCtxDone(w *worker, reps int) {
+	quiet := slog.New(nullHandler{})
+	for rep := 0; rep < reps; rep++ {
+		for scion := 0; scion < 2; scion++ {
+			for _, v := range []int{0, 1, 3} {
+				scripts := [][]recipe{{{kind: 0}}}
+				if v == 3 {
+					scripts = [][]recipe{{{kind: 0}}, {{kind: 27, p1: 700}}, {{kind: 0}}}
+				}
+				w.mu.Lock()
+				w.nts = false
+				w.scripts, w.timeouts, w.reqs = scripts, make([]bool, len(scripts)), nil
+				w.mu.Unlock()
+				var ctx context.Context
+				var cancel context.CancelFunc
+				switch v {
+				case 0:
+					ctx, cancel = context.WithCancel(context.Background())
+					cancel()
+				case 1:
+					ctx, cancel = context.WithDeadline(context.Background(), time.Now().Add(-time.Second))
+				default:
+					ctx, cancel = context.WithTimeout(context.Background(), 350*time.Millisecond)
+				}
+				flt := &countFilter{}
+				var err error
+				var off time.Duration
+				done := make(chan struct{})
+				go func() {
+					defer close(done)
+					if scion == 0 {
+						c := &client.IPClient{Log: quiet, InterleavedMode: v == 3, Filter: flt}
+						_, off, err = client.MeasureClockOffsetIP(ctx, quiet, c, &net.UDPAddr{IP: net.IP(w.addrA.AsSlice())},
+							&net.UDPAddr{IP: net.IP(w.addrA.AsSlice()), Port: w.udpPort()})
+					} else {
+						c := &client.SCIONClient{Log: quiet, InterleavedMode: v == 3, Filter: flt}
+						la := udp.UDPAddr{IA: clientIA, Host: &net.UDPAddr{IP: net.IP(w.addrA.AsSlice())}}
+						ra := udp.UDPAddr{IA: serverIA, Host: &net.UDPAddr{IP: net.IP(w.addrA.AsSlice()), Port: 10123}}
+						ps := []snet.Path{spath.Path{Src: clientIA, Dst: serverIA, DataplanePath: spath.Empty{},
+							NextHop: &net.UDPAddr{IP: net.IP(w.addrA.AsSlice()), Port: w.scionPort()}}}
+						_, off, err = client.MeasureClockOffsetSCION(ctx, quiet, []*client.SCIONClient{c}, la, ra, ps)
+					}
+				}()
+				select {
+				case <-done:
+				case <-time.After(6 * time.Second):
+				}
+				nf := flt.n.Load() // the measurements evaluated when the call returned
+				cancel()
+				// a client goroutine that outlives its call (SCION) finishes its exchange
+				switch {
+				case v == 3:
+					time.Sleep(800 * time.Millisecond)
+				case scion == 1:
+					time.Sleep(250 * time.Millisecond)
+				default:
+					time.Sleep(20 * time.Millisecond)
+				}
+				w.mu.Lock()
+				nreq := len(w.reqs)
+				w.reqs = nil
+				w.mu.Unlock()
+				select {
+				case <-done:
+				default:
+					continue // the call never returned: nothing to report (cannot happen with an answering peer)
+				}
+				if err != nil {
+					off = 0
+				}
+				outMu.Lock()
+				out.Case("client.ctxdone", "nt", lib.V(lib.I(int64(scion)), lib.I(int64(v))),
+					lib.V(lib.Bool(err == nil), lib.I(int64(nreq)), lib.I(nf), lib.I(int64(off))))
+				outMu.Unlock()
+			}
+		}
 	}
 }
